@@ -232,7 +232,9 @@ def submit_store(chk, tier, pool) -> dict:
                  for c in ('C05_store_mirror.cfg', 'C05_store_mirror_trunc.cfg', 'C05_store_mirror_append.cfg')}
   num, depth, batches = (300, 25, 1) if not thorough else (4000, 40, 4)
   f['sims'] = []
-  for cfg in ('C05_store_sim.cfg', 'C05_store_sim_safe.cfg'):
+  # sim: everything; sim_safe: known-bad classes not generated (coverage behind the cuts); sim_one: one path only,
+  # so that re-opening / overwriting / removing the same file is frequent
+  for cfg in ('C05_store_sim.cfg', 'C05_store_sim_safe.cfg', 'C05_store_sim_one.cfg'):
     for b in range(batches):
       f['sims'].append((cfg, b, pool.submit(tlc.simulate, 'Store', cfg, num=num // batches, depth=depth,
                                             seed=chk.seed * 1000 + b + 1, name=f'{TAG}-{cfg[10:-4]}-{b}', timeout=1500)))
